@@ -136,47 +136,43 @@ Rewrite(t, cfg) ==
 \* positions are chunks; a chunk is a bare word (no quote in it) or one quoted string "...".  A run of
 \* separators holding a comma is OR, holding two is malformed; a chunk next to an OR run is an OR term,
 \* otherwise an AND term.  Terms are lower-cased, rewritten (Rewrite) and dropped when not a valid tag.
-SemErrs(q) ==
+\* SemScan(q) = [errs, terms]: the reasons q is malformed, and its terms [s, op, t] (start position,
+\* "and"/"or", lower-cased text; meaningful when errs = {}).
+SemScan(q) ==
   LET n == Len(q)
-      qb == [i \in 1..n |-> Cardinality({j \in 1..(i - 1) : q[j] = QUOTE})]
+      qb == [i \in 1..n |-> Cardinality({j \in 1..(i - 1) : q[j] = QUOTE})]          \* quotes before position i
       sep == [i \in 1..n |-> q[i] \in {SP, TAB, COMMA} /\ qb[i] % 2 = 0]
-      chunks == {c \in (1..n) \X (1..n) : /\ c[1] <= c[2]
-                                          /\ \A k \in c[1]..c[2] : ~sep[k]
-                                          /\ (c[1] = 1 \/ sep[c[1] - 1])
-                                          /\ (c[2] = n \/ sep[c[2] + 1])}
-      nq(c) == Cardinality({k \in c[1]..c[2] : q[k] = QUOTE})
-      wf(c) == nq(c) = 0 \/ (nq(c) = 2 /\ q[c[1]] = QUOTE /\ q[c[2]] = QUOTE)
-  IN  (IF Cardinality({j \in 1..n : q[j] = QUOTE}) % 2 = 1 THEN {"unterminated"} ELSE {})
-      \cup (IF \E c \in chunks : ~wf(c) THEN {"glued"} ELSE {})
-      \cup (IF \E i, j \in 1..n : i < j /\ q[i] = COMMA /\ q[j] = COMMA /\ \A k \in i..j : sep[k]
-            THEN {"doubled_comma"} ELSE {})
-
-\* the terms of a well-formed query: set of [s, op, t] (start position, "and"/"or", lower-cased text)
-SemTerms(q) ==
-  LET n == Len(q)
-      qb == [i \in 1..n |-> Cardinality({j \in 1..(i - 1) : q[j] = QUOTE})]
-      sep == [i \in 1..n |-> q[i] \in {SP, TAB, COMMA} /\ qb[i] % 2 = 0]
-      chunks == {c \in (1..n) \X (1..n) : /\ c[1] <= c[2]
-                                          /\ \A k \in c[1]..c[2] : ~sep[k]
-                                          /\ (c[1] = 1 \/ sep[c[1] - 1])
-                                          /\ (c[2] = n \/ sep[c[2] + 1])}
-      quoted(c) == q[c[1]] = QUOTE
-      text(c) == IF quoted(c) THEN SubSeq(q, c[1] + 1, c[2] - 1) ELSE SubSeq(q, c[1], c[2])
+      \* a chunk is a maximal run of non-separator positions, named by its first position
+      starts == {s \in 1..n : ~sep[s] /\ (s = 1 \/ sep[s - 1])}
+      endOf(s) == CHOOSE e \in s..n : (e = n \/ sep[e + 1]) /\ \A k \in s..e : ~sep[k]
+      nq(s) == Cardinality({k \in s..endOf(s) : q[k] = QUOTE})
+      wf(s) == nq(s) = 0 \/ (nq(s) = 2 /\ q[s] = QUOTE /\ q[endOf(s)] = QUOTE)   \* a bare word or one "quoted string"
+      text(s) == IF q[s] = QUOTE THEN SubSeq(q, s + 1, endOf(s) - 1) ELSE SubSeq(q, s, endOf(s))
       \* a comma in the separator run just before / just after the chunk
-      commaBefore(c) == \E i \in 1..(c[1] - 1) : q[i] = COMMA /\ \A k \in i..(c[1] - 1) : sep[k]
-      commaAfter(c)  == \E i \in (c[2] + 1)..n : q[i] = COMMA /\ \A k \in (c[2] + 1)..i : sep[k]
-  IN  {[s |-> c[1], op |-> IF commaBefore(c) \/ commaAfter(c) THEN "or" ELSE "and", t |-> LowerS(text(c))] : c \in chunks}
+      commaBefore(s) == \E i \in 1..(s - 1) : q[i] = COMMA /\ \A k \in i..(s - 1) : sep[k]
+      commaAfter(s)  == \E i \in (endOf(s) + 1)..n : q[i] = COMMA /\ \A k \in (endOf(s) + 1)..i : sep[k]
+      errs == (IF Cardinality({j \in 1..n : q[j] = QUOTE}) % 2 = 1 THEN {"unterminated"} ELSE {})
+              \cup (IF \E s \in starts : ~wf(s) THEN {"glued"} ELSE {})
+              \cup (IF \E i \in 1..n : q[i] = COMMA /\ sep[i] /\
+                         \E j \in (i + 1)..n : q[j] = COMMA /\ \A k \in i..j : sep[k]
+                    THEN {"doubled_comma"} ELSE {})
+  IN  [errs  |-> errs,
+       terms |-> IF errs # {} THEN {}
+                 ELSE {[s |-> s, op |-> IF commaBefore(s) \/ commaAfter(s) THEN "or" ELSE "and", t |-> LowerS(text(s))] : s \in starts}]
+
+SemErrs(q)  == SemScan(q).errs
+SemTerms(q) == SemScan(q).terms
 
 Group(t, cfg) == IF Rewrite(t, cfg) # t THEN {t, Rewrite(t, cfg)} ELSE {t}
 
 \* required: a set of OR-groups (each a set of terms, at least one of which must match);
 \* optional: a set of terms
-Sem(q, cfg) ==
-  LET errs == SemErrs(q)
-      terms == IF errs = {} THEN {x \in SemTerms(q) : x.t # <<>> /\ Rewrite(x.t, cfg) # <<>>} ELSE {}
-  IN  [errs |-> errs,
-       req  |-> {Group(x.t, cfg) : x \in {y \in terms : y.op = "and"}},
-       opt  |-> UNION {Group(x.t, cfg) : x \in {y \in terms : y.op = "or"}}]
+SemOf(scan, cfg) ==
+  LET terms == {x \in scan.terms : x.t # <<>> /\ Rewrite(x.t, cfg) # <<>>} IN
+    [errs |-> scan.errs,
+     req  |-> {Group(x.t, cfg) : x \in {y \in terms : y.op = "and"}},
+     opt  |-> UNION {Group(x.t, cfg) : x \in {y \in terms : y.op = "or"}}]
+Sem(q, cfg) == SemOf(SemScan(q), cfg)
 
 \* ------------------------------------------------------------------ Impl: the parseSearchQuery automaton
 NONE == 0  QUO == 1  AND == 2  OR == 3  END == 4  ORD == 5
@@ -250,9 +246,8 @@ FlatOr(toks, cfg) == IF toks = <<>> THEN <<>>
                             (IF r # t THEN <<t, r>> ELSE <<t>>) \o FlatOr(Tail(toks), cfg)
 
 \* the tail of parseSearchQuery: drop invalid tokens, split into `and` / `or` (utils.go:598-640)
-Impl(q, cfg) ==
-  LET c == ImplTokens(q)
-      kept == SelectSeq(c.out, LAMBDA t : Rewrite(t.val, cfg) # <<>>)
+ImplOf(c, cfg) ==
+  LET kept == SelectSeq(c.out, LAMBDA t : Rewrite(t.val, cfg) # <<>>)
       ands == SelectSeq(kept, LAMBDA t : t.op = AND)
       ors  == SelectSeq(kept, LAMBDA t : t.op = OR)
   IN  IF c.err # "" THEN [err |-> c.err, req |-> <<>>, opt |-> <<>>]
@@ -260,14 +255,16 @@ Impl(q, cfg) ==
             req |-> [k \in 1..Len(ands) |-> LET t == ands[k].val  r == Rewrite(t, cfg) IN
                                               IF r # t THEN <<t, r>> ELSE <<t>>],
             opt |-> FlatOr(ors, cfg)]
+Impl(q, cfg) == ImplOf(ImplTokens(q), cfg)
 
 ReqSet(req) == {ToSet(req[k]) : k \in DOMAIN req}
 
-ImplMatchesSem(q, cfg) ==
-  LET i == Impl(q, cfg)  s == Sem(q, cfg) IN
+ImplOfMatchesSemOf(toks, scan, cfg) ==
+  LET i == ImplOf(toks, cfg)  s == SemOf(scan, cfg) IN
     /\ (i.err # "") = (s.errs # {})
     /\ i.err # "" => i.err \in s.errs
     /\ i.err = "" => ReqSet(i.req) = s.req /\ ToSet(i.opt) = s.opt
+ImplMatchesSem(q, cfg) == ImplOfMatchesSemOf(ImplTokens(q), SemScan(q), cfg)
 
 \* ------------------------------------------------------------------ tag lists
 RECURSIVE LexLess(_, _)
